@@ -176,7 +176,8 @@ fn main() {
                 ncirc += 1;
             }
             let ncmp = if arg_flag(&args, "--compare") { eng_tensor::record_compare(&mut tr) } else { 0 };
-            json!({"diagrams": diagrams, "circuits": ncirc, "comparisons": ncmp})
+            let extra = eng_tensor::record_extra(&args, seed, &mut tr);
+            json!({"diagrams": diagrams, "circuits": ncirc, "comparisons": ncmp, "extra": extra})
         }
         "compose" => {
             // pairs (g, h) drawn from the union of: the listed families, the wire-only diagrams, random diagrams
@@ -289,11 +290,46 @@ fn main() {
             let qbin = arg_val(&args, "--quizx-bin").unwrap_or_default();
             let cli_every: usize = arg_num(&args, "--cli-every", 0);
             let thorough = arg_flag(&args, "--thorough");
+            // tograph: --vars (explicit outcome variables on measure / measure-reset, also through QASM `measure` statements),
+            //          --meas-boost (1..3 further measurements in every random circuit),
+            //          --direct-every K (Gate::add_to_graph driven by the caller), --unknown-every K (UnknownGate inside a circuit)
+            let with_vars = arg_flag(&args, "--vars");
+            let meas_boost = arg_flag(&args, "--meas-boost");
+            let direct_every: usize = arg_num(&args, "--direct-every", 0);
+            let unknown_every: usize = arg_num(&args, "--unknown-every", 0);
+            // eqcheck: --graphs-every K (graph entry points on diagrams not produced by to_graph)
+            let graphs_every: usize = arg_num(&args, "--graphs-every", 0);
+            let mut r3 = gens::rng(seed ^ 0x7a9);
             let mut count = 0usize;
             let mut handle = |cj: serde_json::Value, tr: &mut Tr| {
                 count += 1;
                 if engine == "tograph" {
+                    use rand::Rng;
                     eng_circ::record_tograph(&cj, tr, &modes);
+                    if with_vars {
+                        if let Some(cv) = circ::with_measure_vars(&cj, circ::VAR_SCHEMES[count % circ::VAR_SCHEMES.len()], &mut r3) {
+                            eng_circ::record_tograph(&cv, tr, &modes);
+                            if direct_every > 0 && count % direct_every == 0 {
+                                eng_circ::record_tograph_direct(&cv, tr, &mut r3);
+                            }
+                        }
+                        // the same through QASM text: every measurement a `measure q[i] -> c[j];` statement
+                        if let Some(cq) = circ::with_measure_vars(&cj, ["same", "distinct"][count % 2], &mut r3) {
+                            eng_circ::record_tograph_qasm(&cq, tr, &modes);
+                        }
+                    }
+                    if direct_every > 0 && count % direct_every == 0 {
+                        eng_circ::record_tograph_direct(&cj, tr, &mut r3);
+                    }
+                    if unknown_every > 0 && count % unknown_every == 0 {
+                        let mut cu = cj.clone();
+                        let n = cu["n"].as_u64().unwrap() as usize;
+                        let gs = cu["gates"].as_array_mut().unwrap();
+                        let at = r3.random_range(0..=gs.len());
+                        let qs: Vec<usize> = if count % 3 == 0 { vec![] } else { vec![r3.random_range(0..n)] };
+                        gs.insert(at, json!({"t": "UnknownGate", "qs": qs, "ph": [1, 4], "vars": []}));
+                        eng_circ::record_tograph(&cu, tr, &modes);
+                    }
                 } else if engine == "xsteps" {
                     eng_circ::record_xsteps(&cj, tr, thorough, count);
                 } else if engine == "extract" {
